@@ -468,6 +468,15 @@ def norm_comment(v):
     return v.rstrip(' \t\n')
 
 
+def collapse_keyword_ws(v):
+    """Whitespace runs between the words of a keyword token; a quoted
+    literal inside the token (AT TIME ZONE 'zone') stays byte-identical."""
+    q = v.find("'")
+    if q < 0:
+        return _WS_RUN.sub(' ', v)
+    return _WS_RUN.sub(' ', v[:q]) + v[q:]
+
+
 def sig(text):
     out = []
     for tt, v in lexer.tokenize(text):
@@ -478,6 +487,6 @@ def sig(text):
         elif (tt in T.Keyword or tt in T.Operator or tt is T.Name.Builtin) \
                 and not v.isalnum():
             # multi-word keywords: their inner whitespace is whitespace
-            v = _WS_RUN.sub(' ', v)
+            v = collapse_keyword_ws(v)
         out.append((tt, v))
     return out
